@@ -642,7 +642,13 @@ class MultiFit(FitBase):
         if _data_size is None:
             return None
         else:
-            return self.data_size - len(self._combined_parameter_node_dict.keys()) + len(self._fitter.fixed_parameters)
+            _extra_ndf_constraints = 0
+            for _parameter_constraint in self._fit_param_constraints:
+                _extra_ndf_constraints += _parameter_constraint.extra_ndf
+            for _fit in self._fits:
+                for _parameter_constraint in _fit.parameter_constraints:
+                    _extra_ndf_constraints += _parameter_constraint.extra_ndf
+            return self.data_size - len(self._combined_parameter_node_dict.keys()) + len(self._fitter.fixed_parameters) + _extra_ndf_constraints
 
     @property
     def goodness_of_fit(self):
@@ -658,6 +664,9 @@ class MultiFit(FitBase):
             _gof_sum += self._shared_cost_function.goodness_of_fit(
                 *[self._nexus.get(_node_name).value for _node_name in self._shared_cost_function.arg_names]
             )
+        # the cost of constraints added to the multifit itself is part of its cost function value
+        for _parameter_constraint in self._fit_param_constraints:
+            _gof_sum += _parameter_constraint.cost(self.parameter_values)
         return _gof_sum
 
     @property
@@ -669,7 +678,8 @@ class MultiFit(FitBase):
         for _fit in self._fits:
             _cost_func = _fit._cost_function
             if _cost_func.add_determinant_cost and not (self._shared_error_nodes_initialized and _cost_func.is_chi2):
-                _cost -= _fit._nexus.get("total_cov_mat_log_determinant").value
+                # subtract the determinant term that the cost function has added (last cost function argument)
+                _cost -= _fit._nexus.get(_cost_func.arg_names[-1]).value
         return self._cost_function.chi2_probability(_cost, self.ndf)
 
     # -- public methods
